@@ -105,6 +105,9 @@ func Generate(profile string, seed uint64, tier string) (*Scenario, error) {
 	case "C17":
 		sc.Property = "C17"
 		genC17(g, sc, tier, seed)
+	case "C18":
+		sc.Property = "C18"
+		genC18(g, sc, tier)
 	case "C20":
 		sc.Property = "C20"
 		c := g.baseStoreCfg(tier)
@@ -396,7 +399,7 @@ func Execute(sc *Scenario) *Verdict {
 	switch sc.Profile {
 	case "C01", "C02", "C03", "C06", "C12":
 		return RunStoreScenario(sc)
-	case "C08", "C10", "C17":
+	case "C08", "C10", "C17", "C18":
 		return RunJobScenario(sc)
 	case "C05", "C02c", "C12c", "C13c", "C19c":
 		return RunConcScenario(sc)
@@ -997,4 +1000,109 @@ func genC17(g *G, sc *Scenario, tier string, seed uint64) {
 		sc.Ops = append(sc.Ops, Op{K: "tick", S: "job1", M: map[string]any{}})
 	}
 	sc.Note = fmt.Sprintf("cell n=%d mask=%b maxItems=%d round=%d", n, mask, maxItems, round)
+}
+
+// genC18: a MultiSource job over a main dataset, 0-2 link datasets and a dependency dataset
+// with a 1-3 hop join path of mixed directions; histories of main / link / dependency writes
+// including re-wiring and deleting links; runs continued until the tokens stop changing.
+func genC18(g *G, sc *Scenario, tier string) {
+	hops := g.Range(1, 3)
+	chain := []string{"dep"}
+	for i := 1; i < hops; i++ {
+		chain = append(chain, fmt.Sprintf("link%d", i))
+	}
+	chain = append(chain, "main")
+	sc.Datasets = append(append([]string{}, chain...), "out")
+	// ids per dataset are disjoint: dep d*, linkN lN_*, main m*
+	ids := map[string][]string{}
+	for _, ds := range chain {
+		stem := ds[:1]
+		if ds != "dep" && ds != "main" {
+			stem = "l" + ds[4:] + "_"
+		}
+		ids[ds] = poolNames(MkE, stem, g.Range(2, 3))
+	}
+	// join i connects chain[i] -> chain[i+1]; direction decides where the reference is stored
+	var joins []any
+	type edge struct {
+		from, to string // dataset holding the referencing entity, dataset of the target
+		pred     string
+	}
+	edges := make([]edge, hops)
+	for i := 0; i < hops; i++ {
+		inv := g.P(0.5)
+		pred := fmt.Sprintf("%sj%d", MkS, i)
+		joins = append(joins, map[string]any{"dataset": chain[i+1], "predicate": "PLACEHOLDER" + fmt.Sprint(i), "_pred": pred, "inverse": inv})
+		if inv {
+			edges[i] = edge{from: chain[i+1], to: chain[i], pred: pred} // next-level entity references current-level entity
+		} else {
+			edges[i] = edge{from: chain[i], to: chain[i+1], pred: pred}
+		}
+	}
+	batch := g.Range(1, 4)
+	src := map[string]any{"Type": "MultiSource", "Name": "main", "Dependencies": []any{map[string]any{"dataset": "dep", "joins": joins}}}
+	cfg := jobConfig("job1", src, map[string]any{"Type": "DatasetSink", "Name": "out"}, nil, "incremental", batch)
+	sc.Ops = append(sc.Ops, Op{K: "addJob", M: cfg})
+	// which predicate an entity of a dataset carries (as referencing side)
+	predOf := map[string]edge{}
+	for _, e := range edges {
+		predOf[e.from] = e
+	}
+	version := 0
+	mk := func(ds, id string) Ent {
+		version++
+		e := Ent{"id": id, "props": map[string]any{MkS + "v": float64(version)}, "refs": map[string]any{}}
+		if ed, ok := predOf[ds]; ok && g.P(0.8) {
+			n := g.Range(1, 2)
+			var targets []any
+			seen := map[string]bool{}
+			for k := 0; k < n; k++ {
+				t := g.Pick(ids[ed.to])
+				if !seen[t] {
+					seen[t] = true
+					targets = append(targets, t)
+				}
+			}
+			if len(targets) == 1 && g.P(0.5) {
+				e["refs"].(map[string]any)[ed.pred] = targets[0]
+			} else {
+				e["refs"].(map[string]any)[ed.pred] = targets
+			}
+		}
+		if g.P(0.12) {
+			e["deleted"] = true
+		}
+		return e
+	}
+	// initial population, then the first (full) run
+	for _, ds := range chain {
+		var ents []Ent
+		for _, id := range ids[ds] {
+			if g.P(0.85) {
+				ents = append(ents, mk(ds, id))
+			}
+		}
+		if len(ents) > 0 {
+			sc.Ops = append(sc.Ops, Op{K: "batch", DS: ds, Ents: ents})
+		}
+	}
+	sc.Ops = append(sc.Ops, Op{K: "runFix", S: "job1"})
+	for rd := g.Range(1, 4); rd > 0; rd-- {
+		for w := g.Range(1, 3); w > 0; w-- {
+			ds := g.Pick(chain)
+			if g.P(0.5) {
+				ds = "dep"
+			}
+			var ents []Ent
+			for k := g.Range(1, 2); k > 0; k-- {
+				ents = append(ents, mk(ds, g.Pick(ids[ds])))
+			}
+			sc.Ops = append(sc.Ops, Op{K: "batch", DS: ds, Ents: ents})
+		}
+		spec := map[string]any{}
+		if g.P(0.2) {
+			spec["sinkFailAt"] = g.Range(1, 3)
+		}
+		sc.Ops = append(sc.Ops, Op{K: "runFix", S: "job1", M: spec})
+	}
 }
